@@ -44,13 +44,13 @@ func longValue(rr *core.Rand, p *ParserDef, cfg *Cfg) []byte {
 		m := gen.Msg(rr, gen.MsgOpts{MinHdrs: 1, MaxHdrs: 2})
 		return mut(m.Raw)
 	case "hdr", "hdrpv":
-		m := gen.Msg(rr, gen.MsgOpts{MinHdrs: 1, MaxHdrs: 14, MultiNA: 50, DupParams: true})
+		m := gen.Msg(rr, gen.MsgOpts{MinHdrs: 1, MaxHdrs: 14, MultiNA: 50, TrailSemi: true, DupParams: true})
 		return mut(m.Raw[m.FLEnd:])
 	case "quoted":
 		b := rr.Bytes(rr.Range(0, 60), []byte("abc \t\\\\\"xyz;,=<>"))
 		return append(b, '"', 'X')
 	case "msg":
-		m := gen.Msg(rr, gen.MsgOpts{MinHdrs: 1, MaxHdrs: 10, MultiNA: 40, DupParams: true})
+		m := gen.Msg(rr, gen.MsgOpts{MinHdrs: 1, MaxHdrs: 10, MultiNA: 40, TrailSemi: true, DupParams: true})
 		return mut(m.Raw)
 	}
 	if len(vals) > 0 {
